@@ -485,6 +485,11 @@ impl Store {
         batch.insert(&self.idx_context, idx_context_key_from_frame(frame), b"");
         batch.commit()?;
         self.keyspace.persist(fjall::PersistMode::SyncAll)?;
+
+        // A context registration is usable as soon as it is stored (import path)
+        if frame.topic == "xs.context" && frame.context_id == ZERO_CONTEXT {
+            self.contexts.write().unwrap().insert(frame.id);
+        }
         Ok(())
     }
 
